@@ -31,12 +31,10 @@ MANIFEST = {
     "technique": "Lean 4 proof (induction/invariants over an executable model) + differential correspondence with the real code",
 }
 
-REQUIRED = ["KV.C08.constants_ok"]
-try:
-    from .C08_required import REQUIRED as _R       # kept next to the Lean file so that both move together
-    REQUIRED = _R
-except ImportError:
-    pass
+REQUIRED = ["KV.C08.constants_ok", "KV.C08.hyp_of_build", "KV.C08.extendLeft_eq", "KV.C08.extendLeft_prob",
+            "KV.C08.terminal_frag", "KV.C08.nonterminal_frag", "KV.C08.derivation_frag", "KV.C08.any_derivation_table",
+            "KV.C08.any_derivation", "KV.C08.any_derivation_leftToRight", "KV.C08.no_rest_fragment_table",
+            "KV.C08.no_rest_fragment", "KV.C08.any_derivation_fails_with_dropped_marks"]
 
 KEY_G = "trie-drops-extension-marks-of-trailing-blanks"
 
